@@ -184,6 +184,17 @@ pub fn c03_worker(ctx: &mut Ctx) {
                                     .with_p(vec![flush, 0]),
                             );
                         }
+                        // the same transform obtained from a planner with a minimal history (opposite direction first)
+                        if (n + ei) % 4 == 2 && planner != Planner::Auto && n >= 2 {
+                            ctx.exec(
+                                &Case::new("C03", "guard", planner, ty, dir, n)
+                                    .with_entry(*entry)
+                                    .with_chunks(k)
+                                    .with_source(Source::History { reqs: vec![Req { n, dir: dir.other() }, Req { n, dir }], pick: 1 })
+                                    .with_input(InputSpec::fam("uniform", n as u64))
+                                    .with_p(vec![(n / 4 % 4) as i64, 0]),
+                            );
+                        }
                         // single chunk as well (the unroll-by-2 paths differ)
                         if k != 1 {
                             ctx.exec(
@@ -372,6 +383,17 @@ pub fn c07_worker(ctx: &mut Ctx) {
                                 .with_input(InputSpec::fam(["uniform", "silence_mix", "periodic", "spikes"][(n + ei) % 4], n as u64 * 5 + ei as u64))
                                 .with_p(vec![keep, filler]),
                         );
+                        // the same transform obtained from a planner with a minimal history (opposite direction first)
+                        if (n + ei) % 3 == 1 && planner != Planner::Auto {
+                            ctx.exec(
+                                &Case::new("C07", "chunks", planner, ty, dir, n)
+                                    .with_entry(*entry)
+                                    .with_chunks(3 + n % 2)
+                                    .with_source(Source::History { reqs: vec![Req { n, dir: dir.other() }, Req { n, dir }], pick: 1 })
+                                    .with_input(InputSpec::fam("uniform", n as u64 + 23))
+                                    .with_p(vec![(n % 3) as i64, 1 + (n % 4) as i64]),
+                            );
+                        }
                         // the smallest even / odd counts always, and for short transforms one count beyond 8
                         let kbig = 9 + (n + ei) % 9;
                         for k2 in if n <= 128 { vec![2usize, 3, kbig] } else { vec![2usize, 3] } {
@@ -450,6 +472,17 @@ pub fn c08_worker(ctx: &mut Ctx) {
                                     .with_chunks(chunks)
                                     .with_input(InputSpec::fam(["uniform", "periodic", "silence_mix", "const", "tone", "impulse", "spikes", "alt"][(n + chunks + ei) % 8], n as u64 + 3))
                                     .with_p(vec![0, 1, 1]),
+                            );
+                        }
+                        // the same transform obtained from a planner with a minimal history (opposite direction first), NaN fills
+                        if (n + ei) % 3 == 0 && planner != Planner::Auto {
+                            ctx.exec(
+                                &Case::new("C08", "scratch", planner, ty, dir, n)
+                                    .with_entry(*entry)
+                                    .with_chunks(2)
+                                    .with_source(Source::History { reqs: vec![Req { n, dir: dir.other() }, Req { n, dir }], pick: 1 })
+                                    .with_input(InputSpec::fam("uniform", n as u64 + 17))
+                                    .with_p(vec![SLACK[(n / 3) % 4], 1, 1]),
                             );
                         }
                         // rotating part of the grid
